@@ -8,6 +8,7 @@ import traceback
 
 import hir as H
 import mir as M
+import canon
 import sym as S
 from facts import VERIF
 
@@ -123,6 +124,7 @@ class Ctx(object):
         for fn in facts['fns']:
             self.fns[S.norm_path(fn['path'])] = fn
         self.adts = {S.norm_path(a['path']): a for a in facts['adts']}
+        canon.register([dict(a, path=S.norm_path(a['path'])) for a in facts['adts']])
         self.consts = {S.norm_path(c['path']): c for c in facts['consts']}
         self.impls = facts['impls']
         self.rules = []
